@@ -597,6 +597,7 @@ def case_strategy(draw, profile="c02", dbs=("phreeqc.dat",)):
     nsteps = draw(st.sampled_from([1, 1, 2, 2, 3, 4] if profile == "c02" else [1, 1, 1, 2]))
     steps = []
     prev_kinds = set()
+    resolved = {}          # kind -> definition in force (own or carried), for pp and gas
     for k in range(nsteps):
         stp = {"mode": draw(st.sampled_from(["batch", "batch", "cells"])), "incr": draw(st.booleans())}
         # ---- solution or mix
@@ -656,6 +657,26 @@ def case_strategy(draw, profile="c02", dbs=("phreeqc.dat",)):
         # REACTION / KINETICS define (re-use of the last amount, incremental or cumulative)
         if draw(st.integers(0, 3)) == 0:
             stp["temps"] = [draw(cg.uni(5.0, 80.0, 3)) for _ in range(draw(st.integers(1, 5)))]
+        # Known finding on the pinned tree (C02, replays/C02/known/ba-deficit-with-o2-as-pure-phase-and-in-gas-phase.json):
+        # O2(g) held as a pure phase *and* as a component of a fixed-pressure gas phase in the same cell, next to a pure
+        # phase with 0 mol (Barite), ends 1.45e-9 mol short of Ba (4.6e-4 of its inventory) in a run without error.
+        # The combination is excluded by construction: O2(g) leaves the newly defined one of the two (counted).
+        for kd in ("pp", "gas"):
+            if isinstance(stp.get(kd), dict):
+                resolved[kd] = stp[kd]
+            elif kd not in stp:
+                resolved.pop(kd, None)
+        if "pp" in stp and "gas" in stp and \
+                any(p["name"] == "O2(g)" for p in resolved["pp"]["phases"]) and \
+                any(g == "O2(g)" for g, _ in resolved["gas"]["comps"]):
+            if isinstance(stp["pp"], dict):
+                stp["pp"]["phases"] = [p for p in stp["pp"]["phases"] if p["name"] != "O2(g)"]
+            else:
+                rest = [c for c in stp["gas"]["comps"] if c[0] != "O2(g)"]
+                if not rest or all(c[1] == 0.0 for c in rest):
+                    rest = [["CO2(g)", 0.1]]
+                stp["gas"]["comps"] = rest
+            stp["o2_pp_and_gas_resolved"] = True
         prev_kinds = {kd for kd in KINDS if kd in stp and kd != "reaction"}
         steps.append(stp)
     return {"db": db, "sols": sols, "steps": steps, "profile": profile}
